@@ -129,8 +129,9 @@ __CPROVER_requires(ADJ_PRE(self))
 __CPROVER_requires(self->data != NULL)      /* an input has been set */
 __CPROVER_assigns(self->least_squares, self->solved, self->rtr_, self->x_, self->r_, self->minx, self->minx_dim, gv_exc;
                   self->least_squares != NULL: self->least_squares->gv_live)
-__CPROVER_ensures(ADJ_INV(self))
-__CPROVER_ensures(gv_exc == 0 ==> self->solved)
+/* as for x(): the invariant is promised on normal return; init_least_squares may throw (assumed contract) */
+__CPROVER_ensures(gv_exc == 0 ==> (ADJ_INV(self) && self->solved))
+__CPROVER_ensures(__CPROVER_old(self->solved) ==> (gv_exc == 0 && self->least_squares == __CPROVER_old(self->least_squares)))
 //@ entry Adj_defect
 GV_CANARY("Adj_defect entry");
 
@@ -139,8 +140,9 @@ __CPROVER_requires(ADJ_PRE(self))
 __CPROVER_requires(self->data != NULL)
 __CPROVER_assigns(self->least_squares, self->solved, self->rtr_, self->x_, self->r_, self->minx, self->minx_dim, gv_exc;
                   self->least_squares != NULL: self->least_squares->gv_live)
-__CPROVER_ensures(ADJ_INV(self))
-__CPROVER_ensures(gv_exc == 0 ==> self->solved)
+/* as for x(): the invariant is promised on normal return; init_least_squares may throw (assumed contract) */
+__CPROVER_ensures(gv_exc == 0 ==> (ADJ_INV(self) && self->solved))
+__CPROVER_ensures(__CPROVER_old(self->solved) ==> (gv_exc == 0 && self->least_squares == __CPROVER_old(self->least_squares)))
 //@ entry Adj_q_xx
 GV_CANARY("Adj_q_xx entry");
 
@@ -149,8 +151,9 @@ __CPROVER_requires(ADJ_PRE(self))
 __CPROVER_requires(self->data != NULL && 1 <= i && i <= 4 && 1 <= j && j <= 4)
 __CPROVER_assigns(self->least_squares, self->solved, self->rtr_, self->x_, self->r_, self->minx, self->minx_dim, gv_exc;
                   self->least_squares != NULL: self->least_squares->gv_live)
-__CPROVER_ensures(ADJ_INV(self))
-__CPROVER_ensures(gv_exc == 0 ==> self->solved)
+/* as for x(): the invariant is promised on normal return; init_least_squares may throw (assumed contract) */
+__CPROVER_ensures(gv_exc == 0 ==> (ADJ_INV(self) && self->solved))
+__CPROVER_ensures(__CPROVER_old(self->solved) ==> (gv_exc == 0 && self->least_squares == __CPROVER_old(self->least_squares)))
 //@ entry Adj_q_bb
 GV_CANARY("Adj_q_bb entry");
 //@ end
